@@ -413,7 +413,7 @@ func c14Scripted(ctx *Ctx, i int, rng *rand.Rand) {
 			ls = append(ls, "LCancel "+cN(l.C))
 		}
 	}
-	coq := fmt.Sprintf("{| c14_limit := %s; c14_discard := %s; c14_trace := %s; c14_calls := %s; c14_pending := %s |}",
+	coq := fmt.Sprintf("C14Script {| c14_limit := %s; c14_discard := %s; c14_trace := %s; c14_calls := %s; c14_pending := %s |}",
 		cNat(limit), cNat(discard), cList(ls), cList(obs), cNat(plen))
 	ctx.Emit(Case{I: i, Kind: "scripted", Coq: coq, Desc: map[string]interface{}{"limit": limit, "discard": discard, "trace": trace, "calls": desc, "pending": plen}, Monitor: mon})
 }
@@ -731,6 +731,27 @@ func c14CancelRace(ctx *Ctx, i int, rounds int) {
 	}
 	sent := 0
 	outcomes := map[string]int{}
+	// the first rounds as a history of the channel-level model (Recycle.v): call ids 2r+1 and 2r+2
+	var evs, results []string
+	const modelRounds = 200
+	logEv := func(r int, e string) {
+		if r < modelRounds {
+			evs = append(evs, e)
+		}
+	}
+	logRes := func(r int, id int, out int, err error) {
+		if r >= modelRounds {
+			return
+		}
+		switch {
+		case err == nil:
+			results = append(results, fmt.Sprintf("(%s, RPayload %s)", cN(id), cN(out)))
+		case err == context.Canceled:
+			results = append(results, fmt.Sprintf("(%s, RCtx)", cN(id)))
+		default:
+			results = append(results, fmt.Sprintf("(%s, RPayload 0)", cN(id))) // neither: the model will disagree
+		}
+	}
 	for r := 0; r < rounds && len(mon) == 0; r++ {
 		cctx, cancel := context.WithCancel(context.Background())
 		type res struct {
@@ -751,6 +772,10 @@ func c14CancelRace(ctx *Ctx, i int, rounds int) {
 			break
 		}
 		pa, pb := 2*r+1000001, 2*r+1000002
+		ca, cb := 2*r+1, 2*r+2
+		logEv(r, fmt.Sprintf("VCall %s", cN(ca)))
+		logEv(r, fmt.Sprintf("VLookup %s %s", cN(ca), cN(pa)))
+		logEv(r, "VSend")
 		// the reply and the cancellation, as close together as two goroutines get
 		var wg sync.WaitGroup
 		wg.Add(2)
@@ -764,11 +789,14 @@ func c14CancelRace(ctx *Ctx, i int, rounds int) {
 		}()
 		wg.Wait()
 		a := <-ra
+		logRes(r, ca, a.out, a.err)
 		switch {
 		case a.err == nil && a.out == pa:
 			outcomes["first call got its reply"]++
+			logEv(r, fmt.Sprintf("VWake %s", cN(ca)))
 		case a.err == context.Canceled:
 			outcomes["first call got its context's error"]++
+			logEv(r, fmt.Sprintf("VCancel %s", cN(ca)))
 		default:
 			mon = append(mon, fmt.Sprintf("c14-cancel-race: round %d: the cancelled call returned (%d, %v); its reply was %d", r, a.out, a.err, pa))
 		}
@@ -787,16 +815,23 @@ func c14CancelRace(ctx *Ctx, i int, rounds int) {
 			mon = append(mon, fmt.Sprintf("c14-cancel-race: round %d: the next request went out with id %s (the cancelled call had %s)", r, idB, idA))
 			break
 		}
+		logEv(r, fmt.Sprintf("VCall %s", cN(cb)))
 		select {
 		case b := <-rb:
 			// answered before its reply was even sent
+			logEv(r, fmt.Sprintf("VWake %s", cN(cb)))
+			logRes(r, cb, b.out, b.err)
 			mon = append(mon, fmt.Sprintf("c14-cancel-race: round %d: call %s returned (%d, %v) before any reply with its id was sent; the call before it (id %s, reply %d) had been cancelled as its reply arrived", r, idB, b.out, b.err, idA, pa))
 			continue
 		case <-time.After(300 * time.Microsecond):
 		}
 		reply(idB, pb)
+		logEv(r, fmt.Sprintf("VLookup %s %s", cN(cb), cN(pb)))
+		logEv(r, "VSend")
 		select {
 		case b := <-rb:
+			logEv(r, fmt.Sprintf("VWake %s", cN(cb)))
+			logRes(r, cb, b.out, b.err)
 			if b.err != nil || b.out != pb {
 				mon = append(mon, fmt.Sprintf("c14-cancel-race: round %d: call %s returned (%d, %v); the reply carrying its id was %d", r, idB, b.out, b.err, pb))
 			}
@@ -804,7 +839,8 @@ func c14CancelRace(ctx *Ctx, i int, rounds int) {
 			mon = append(mon, fmt.Sprintf("c14-cancel-race: round %d: call %s never returned although its reply %d was delivered", r, idB, pb))
 		}
 	}
-	ctx.Emit(Case{I: i, Kind: "cancel-race", Desc: map[string]interface{}{"rounds": rounds, "outcomes": outcomes}, Monitor: mon})
+	coq := fmt.Sprintf("C14Chan %s %s", cList(evs), cList(results))
+	ctx.Emit(Case{I: i, Kind: "cancel-race", Coq: coq, Desc: map[string]interface{}{"rounds": rounds, "outcomes": outcomes}, Monitor: mon})
 }
 
 // ---------- request ids when building a request fails ----------
@@ -917,6 +953,8 @@ func c14FailedEncode(ctx *Ctx, i int, rng *rand.Rand) {
 
 // WhoService reports which service its handlers find in their context and calls back over it.
 type WhoService struct {
+	calls int64 // handler invocations with depth 2 (the id-less probe)
+	done  int64 // ... that returned
 	name  string
 	inner *jsonrpc2.Local // when set, Relay hands the request on to this in-process service
 	seen  *sync.Map       // handler name -> description of the service found
@@ -928,6 +966,10 @@ func (w *WhoService) Who(ctx context.Context, depth int) (string, error) {
 		return "", err
 	}
 	w.seen.Store(w.name, fmt.Sprintf("%T %p", svc, svc))
+	if depth == 2 {
+		atomic.AddInt64(&w.calls, 1)
+		defer atomic.AddInt64(&w.done, 1)
+	}
 	if depth > 0 { // call back over the service the request arrived on
 		var out string
 		if err := svc.Call(ctx, &out, "who", depth-1); err != nil {
@@ -989,7 +1031,37 @@ func c14CtxService(ctx *Ctx, i int) {
 	if v, ok := seen.Load("inner"); ok && v.(string) != fmt.Sprintf("%T %p", inner, inner) {
 		mon = append(mon, fmt.Sprintf("c14-wrong-context-service: the handler of the in-process service found %s in its context, the request arrived through %T %p", v, inner, inner))
 	}
-	ctx.Emit(Case{I: i, Kind: "context-service", Desc: map[string]interface{}{"levels": 3}, Monitor: mon})
+	// (3) a request without an id (a foreign peer's, or a notification): whatever is or is not
+	// answered, its handler runs like any other, may call back over the connection it arrived
+	// on, and does not hold up the requests and replies that follow it
+	before := atomic.LoadInt64(&outerB.calls)
+	raw := json.RawMessage(`[2]`)
+	if err := ra.WriteMessage(&jsonrpc2.Message{Request: &jsonrpc2.Request{Method: "who", Params: raw}, Version: "2.0"}); err != nil {
+		mon = append(mon, fmt.Sprintf("c14-idless-request: writing a request without an id failed: %v", err))
+	}
+	t0 := time.Now()
+	for time.Since(t0) < 3*time.Second && atomic.LoadInt64(&outerB.done) == 0 {
+		time.Sleep(5 * time.Millisecond)
+	}
+	started, finished := atomic.LoadInt64(&outerB.calls)-before, atomic.LoadInt64(&outerB.done)
+	// (in a goroutine: on a connection that is stuck even the write of the request blocks)
+	afterCh := make(chan error, 1)
+	go func() {
+		var out2 string
+		c3, cancel3 := context.WithTimeout(context.Background(), 3*time.Second)
+		defer cancel3()
+		afterCh <- ra.Call(c3, &out2, "who", 1)
+	}()
+	var errAfter error
+	select {
+	case errAfter = <-afterCh:
+	case <-time.After(4 * time.Second):
+		errAfter = fmt.Errorf("nothing within 4 s (the connection is stuck)")
+	}
+	if started > 0 && (finished == 0 || errAfter != nil) {
+		mon = append(mon, fmt.Sprintf("c14-idless-request: a request without an id whose handler calls back over the connection it arrived on: the handler started %d time(s) and finished %d time(s) within 3 s; an ordinary call made afterwards on the same connection returned %v: calls nested in it, and everything behind it on the connection, must still get their replies", started, finished, errAfter))
+	}
+	ctx.Emit(Case{I: i, Kind: "context-service", Desc: map[string]interface{}{"levels": 3, "idless_handler_started": started, "idless_handler_finished": finished}, Monitor: mon})
 }
 
 func runC14(ctx *Ctx) {
